@@ -576,6 +576,42 @@ pub fn run_batch(property: &'static str, seed: u64, start: u64, count: u64, tier
         if budget_ms > 0 && (simlibc::real_now_ns() - t0) / 1_000_000 > budget_ms {
             break;
         }
+        if property == "C07" && run % 3 == 2 {
+            // race row
+            let rp = race::gen_plan(seed, run);
+            let rex = race::execute(&rp);
+            sum.runs += 1;
+            if rex.deadlocked {
+                sum.count("race_aborted_by_deadlock_or_cap", 1);
+                continue;
+            }
+            sum.evaluations += 1;
+            sum.count("race_rows", 1);
+            if rex.quiescent_hit {
+                sum.probe("race_quiescent_repeat_was_cache_hit", 1);
+                sum.distinct_hash(rex.trace_hash);
+            }
+            for p in rex.problems {
+                let key = key_of(&p);
+                if !sum.class_first(&key) || sum.violations.len() >= 12 {
+                    continue;
+                }
+                let mut rp2 = rp.clone();
+                rp2.sched = crate::c08::SchedSpec { kind: "replay".into(), a: 0, len: rp.sched.len, seed: rp.sched.seed, yield_on_release: rp.sched.yield_on_release, choices: rex.choices.clone() };
+                sum.violations.push(Violation {
+                    property: "C07".into(),
+                    clause: p.clause.clone(),
+                    facts: p.facts.clone(),
+                    message: p.message.clone(),
+                    seed,
+                    run,
+                    replay: serde_json::to_value(race::RReplay { check: "C07".into(), race_plan: rp2, clause: p.clause.clone() }).unwrap(),
+                    minimised: false,
+                    original: None,
+                });
+            }
+            continue;
+        }
         let plan = gen_plan(seed, run, tier);
         let problems = execute(&plan, sum);
         sum.runs += 1;
@@ -632,6 +668,15 @@ pub fn run_batch(property: &'static str, seed: u64, start: u64, count: u64, tier
 }
 
 pub fn replay(property: &'static str, v: &serde_json::Value, sum: &mut Summary) -> Result<(), String> {
+    if v.get("race_plan").is_some() {
+        let r: race::RReplay = serde_json::from_value(v.clone()).map_err(|e| e.to_string())?;
+        let rex = race::execute(&r.race_plan);
+        sum.runs = 1;
+        for p in rex.problems {
+            sum.violations.push(Violation { property: "C07".into(), clause: p.clause.clone(), facts: p.facts.clone(), message: p.message, seed: 0, run: 0, replay: v.clone(), minimised: false, original: None });
+        }
+        return Ok(());
+    }
     let r: Replay = serde_json::from_value(v.clone()).map_err(|e| e.to_string())?;
     let problems = execute(&r.plan, sum);
     sum.runs = 1;
@@ -639,4 +684,181 @@ pub fn replay(property: &'static str, v: &serde_json::Value, sum: &mut Summary) 
         sum.violations.push(Violation { property: property.into(), clause: p.clause.clone(), facts: p.facts.clone(), message: p.message, seed: 0, run: 0, replay: v.clone(), minimised: true, original: None });
     }
     Ok(())
+}
+
+// ================================================================================================
+// C07 race rows: one searching thread || one writing thread under the seeded scheduler (E2), followed by a
+// quiescent repeat of the search. A result computed before the write must not be servable after it.
+
+pub mod race {
+    use super::*;
+    use crate::c08::SchedSpec;
+    use plsim::sim::{self, RunConfig};
+    use std::sync::Arc;
+
+    #[derive(Clone, Debug, PartialEq, Serialize, Deserialize)]
+    pub struct RPlan {
+        pub cfg: TCfg,
+        pub pre: Vec<ApiOp>,
+        pub q: Vec<u32>,
+        pub k: usize,
+        pub searches: usize,
+        pub writer: Vec<ApiOp>,
+        pub sched: SchedSpec,
+        pub env_seed: u64,
+    }
+
+    pub fn gen_plan(seed: u64, run: u64) -> RPlan {
+        let prog = run / 10;
+        let mut rng = Rng::for_run(seed, "C07r", prog);
+        let mut cfg = TCfg::gen(&mut rng);
+        cfg.dim = *rng.pick(&[2usize, 4, 33]);
+        cfg.qc_cap = *rng.pick(&[1usize, 2, 50]);
+        cfg.qc_threshold_milli = 1000;
+        cfg.capacity = 1000;
+        cfg.hot_hard = *rng.pick(&[2usize, 200]);
+        cfg.snap_interval = 1000;
+        let mut w = 0u64;
+        let n_pre = rng.range(1, 5);
+        let mut pre = Vec::new();
+        for id in 0..n_pre {
+            w += 1;
+            pre.push(ApiOp::Insert { id, vec: bits(&gen_vector(&mut rng, cfg.dim, w)), meta: gen_meta(&mut rng, w) });
+        }
+        if rng.chance(1, 3) {
+            pre.push(ApiOp::Flush { force: true });
+        }
+        let qv = gen_vector(&mut rng, cfg.dim, 777);
+        let k = *rng.pick(&[1usize, 2, 3, 10]);
+        let mut writer = Vec::new();
+        for _ in 0..rng.range(1, 2) {
+            let id = rng.below(n_pre + 1);
+            w += 1;
+            let op = match rng.below(10) {
+                0..=4 => {
+                    // close to the query so that it belongs inside the cached boundary
+                    let eps = *rng.pick(&[0.0f32, 0.01, 0.2]);
+                    let v: Vec<f32> = qv.iter().enumerate().map(|(i, x)| x + if i % 2 == 0 { eps } else { -eps }).collect();
+                    ApiOp::Insert { id, vec: bits(&v), meta: gen_meta(&mut rng, w) }
+                }
+                5..=6 => ApiOp::Insert { id, vec: bits(&gen_vector(&mut rng, cfg.dim, w)), meta: gen_meta(&mut rng, w) },
+                7 => ApiOp::Delete { id },
+                8 => ApiOp::UpdateMeta { id, meta: gen_meta(&mut rng, w), merge: false },
+                _ => ApiOp::BulkLoad { docs: vec![(id, bits(&gen_vector(&mut rng, cfg.dim, w)), gen_meta(&mut rng, w))] },
+            };
+            writer.push(op);
+        }
+        let env_seed = rng.next();
+        let mut srng = Rng::for_run(seed, "C07rs", run);
+        RPlan { cfg, pre, q: bits(&qv), k, searches: rng.range(1, 2) as usize, writer, sched: SchedSpec::gen(&mut srng, 120), env_seed }
+    }
+
+    pub struct RExec {
+        pub problems: Vec<Problem>,
+        pub deadlocked: bool,
+        pub trace_hash: u64,
+        pub quiescent_hit: bool,
+        pub choices: Vec<(u64, u32)>,
+    }
+
+    pub fn execute(plan: &RPlan) -> RExec {
+        reset_env(plan.env_seed);
+        let p = plan.clone();
+        let r = on_fresh_thread(move || {
+            let mut ex = RExec { problems: vec![], deadlocked: false, trace_hash: 0, quiescent_hit: false, choices: vec![] };
+            let b = match build(&p.cfg, None) {
+                Ok(b) => Arc::new(b),
+                Err(_) => return ex,
+            };
+            for op in &p.pre {
+                let _ = exec(&b, op);
+            }
+            let qf = unbits(&p.q);
+            let mut bodies: Vec<Box<dyn FnOnce() + Send + 'static>> = Vec::new();
+            {
+                let b2 = Arc::clone(&b);
+                let (q2, k, n) = (qf.clone(), p.k, p.searches);
+                bodies.push(Box::new(move || {
+                    for _ in 0..n {
+                        let _ = b2.engine.knn_search_with_ef_detailed_scoped(&q2, k, None, 0);
+                    }
+                }));
+            }
+            {
+                let b2 = Arc::clone(&b);
+                let ops = p.writer.clone();
+                bodies.push(Box::new(move || {
+                    for op in &ops {
+                        let _ = exec(&b2, op);
+                    }
+                }));
+            }
+            let result = sim::run(RunConfig { seed: p.sched.seed, strategy: p.sched.strategy(), max_decisions: 30_000, yield_on_release: p.sched.yield_on_release, record_sites: false }, bodies);
+            ex.trace_hash = result.trace_hash;
+            ex.choices = result.choices.clone();
+            if result.deadlock.is_some() || result.step_cap_hit {
+                ex.deadlocked = true;
+                std::mem::forget(b);
+                return ex;
+            }
+            // quiescent repeat
+            let metric = p.cfg.metric;
+            let written: BTreeSet<u64> = p
+                .writer
+                .iter()
+                .flat_map(|op| match op {
+                    ApiOp::Insert { id, .. } | ApiOp::Delete { id } | ApiOp::UpdateMeta { id, .. } => vec![*id],
+                    ApiOp::BulkLoad { docs } => docs.iter().map(|d| d.0).collect(),
+                    _ => vec![],
+                })
+                .collect();
+            if let Ok((res, path)) = b.engine.knn_search_with_ef_detailed_scoped(&qf, p.k, None, 0) {
+                if matches!(path, SearchExecutionPath::CacheHit) {
+                    ex.quiescent_hit = true;
+                    let ids: BTreeSet<u64> = res.iter().map(|x| x.doc_id).collect();
+                    let kth = if res.len() >= p.k { res.last().map(|x| x.distance as f64) } else { None };
+                    let mut facts = BTreeMap::new();
+                    facts.insert("mode".to_string(), "searcher_writer_race".to_string());
+                    for x in &res {
+                        match b.engine.cold_tier().fetch_document(x.doc_id) {
+                            None => ex.problems.push(Problem { property: "C07", clause: "stale_cache_hit_after_race".into(), message: format!("quiescent cache hit returns deleted id {}", x.doc_id), facts: { let mut f = facts.clone(); f.insert("why".into(), "deleted_document".into()); f } }),
+                            Some(v) => {
+                                let (lo, hi) = ref_distance(metric, &qf, &v);
+                                if written.contains(&x.doc_id) && !((x.distance as f64) >= lo && (x.distance as f64) <= hi) {
+                                    ex.problems.push(Problem { property: "C07", clause: "stale_cache_hit_after_race".into(), message: format!("quiescent cache hit reports distance {} for id {} whose current vector is at [{:.6},{:.6}] (pre-write result stored after the write's invalidation)", x.distance, x.doc_id, lo, hi), facts: { let mut f = facts.clone(); f.insert("why".into(), "pre_overwrite_distance".into()); f } });
+                                }
+                            }
+                        }
+                    }
+                    for id in &written {
+                        if ids.contains(id) {
+                            continue;
+                        }
+                        if let Some(v) = b.engine.cold_tier().fetch_document(*id) {
+                            let (_, hi) = ref_distance(metric, &qf, &v);
+                            let inside = match kth {
+                                Some(kd) => hi < kd - (3e-5 + 3e-4 * kd.abs()),
+                                None => true,
+                            };
+                            if inside {
+                                ex.problems.push(Problem { property: "C07", clause: "stale_cache_hit_after_race".into(), message: format!("quiescent cache hit {:?} omits id {} written during the race although it lies strictly inside the boundary (distance <= {:.6}, k-th {:?})", res.iter().map(|x| (x.doc_id, x.distance)).collect::<Vec<_>>(), id, hi, kth), facts: { let mut f = facts.clone(); f.insert("why".into(), "written_document_omitted".into()); f } });
+                            }
+                        }
+                    }
+                }
+            }
+            ex
+        });
+        match r {
+            Ok(e) => e,
+            Err(p) => RExec { problems: vec![Problem { property: "C07", clause: "harness_thread_panicked".into(), message: p, facts: BTreeMap::new() }], deadlocked: false, trace_hash: 0, quiescent_hit: false, choices: vec![] },
+        }
+    }
+
+    #[derive(Clone, Debug, Serialize, Deserialize)]
+    pub struct RReplay {
+        pub check: String,
+        pub race_plan: RPlan,
+        pub clause: String,
+    }
 }
